@@ -392,8 +392,16 @@ const (
 	LLoc     = 260
 )
 
+// typeSubtype: RFC 9052 3.1 on the textual form of content type / typ: "type/subtype" and "Leading and trailing
+// whitespace is not permitted". Whitespace is taken narrowly here (SP, HTAB, LF, VT, FF, CR - the ASCII set), so the
+// reference is never stricter than the text; what else the library refuses (a second "/", Unicode spaces) is its business.
 func typeSubtype(v *rc.Node) bool {
-	return v.Major == 3 && strings.Contains(string(v.Content), "/")
+	if v.Major != 3 || !strings.Contains(string(v.Content), "/") {
+		return false
+	}
+	c := v.Content
+	ws := func(b byte) bool { return b == ' ' || (b >= 9 && b <= 13) }
+	return !ws(c[0]) && !ws(c[len(c)-1])
 }
 
 // wfLayer applies the section 3.1 rules to one layer (either bucket may be nil).
